@@ -23,6 +23,7 @@ type wordLine struct {
 	Indent     []int              `json:"indent"`
 	IndentP    []int              `json:"indentp"`
 	HTMLEsc    []int              `json:"htmlesc"`
+	MaxDepth   int                `json:"maxdepth"`
 }
 
 func toBytes(a []int) []byte {
@@ -48,6 +49,9 @@ func (e *engine) checkWordLine(worker int, raw []byte) error {
 	e.rep.Nontrivial(string(w))
 	if ln.Valid && (ln.Root == "obj" || ln.Root == "arr") || !ln.Valid && len(w) >= 3 {
 		e.rep.Sample(map[string]interface{}{"word": string(w), "spec_valid": ln.Valid, "spec_root": ln.Root})
+	}
+	if len(w) == 0 && ln.MaxDepth > 0 && (e.prop == "C16" || e.prop == "C04") {
+		e.depthLimit(worker, ln.MaxDepth)
 	}
 	// the independent reader must agree with the specification's grammar (projection self-check)
 	if jsonread.Valid(w) != ln.Valid {
@@ -199,4 +203,69 @@ var probePatches = [][]byte{
 var probeOpts = []lib.Opts{
 	{Neg: true, Esc: true}, {Neg: false, Esc: false}, {Neg: true, Allow: true, Ensure: true, Esc: true}, {Ensure: true}, {Allow: true, Limit: 1, Esc: true},
 	{Neg: true, Limit: 5, Esc: true},
+}
+
+// depthLimit: nesting d is accepted exactly when d <= MaxDepth (the specification's scanner and grammar agree on
+// that for MaxDepth = 3, checked by TLC in the depth stage; the real constant is the MaxDepth of the emitting model).
+func (e *engine) depthLimit(worker int, max int) {
+	for _, d := range []int{max - 1, max, max + 1} {
+		for _, shape := range []string{"arr", "obj"} {
+			var b []byte
+			for i := 0; i < d; i++ {
+				if shape == "arr" {
+					b = append(b, '[')
+				} else {
+					b = append(b, `{"a":`...)
+				}
+			}
+			if shape == "obj" {
+				b = append(b[:len(b)-5], "{}"...)
+				for i := 0; i < d-1; i++ {
+					b = append(b, '}')
+				}
+			} else {
+				for i := 0; i < d; i++ {
+					b = append(b, ']')
+				}
+			}
+			ln := wordLine{Fam: "word", Valid: d <= max, Root: shape, PatchOK: false, CreateKind: map[string]string{"arr": "reject", "obj": "obj"}[shape], MaxDepth: max}
+			if !ln.Valid {
+				ln.Root, ln.CreateKind = "none", "reject"
+			}
+			text := b
+			e.rep.Label(fmt.Sprintf("Depth_%s_%v", shape, ln.Valid))
+			viol := func(kind, detail string, extra map[string]interface{}) *lib.Violation {
+				c := map[string]interface{}{"fam": "word", "text": fmt.Sprintf("<%s nesting of depth %d>", shape, d), "spec_valid": ln.Valid, "depth": d, "shape": shape}
+				for k, v := range extra {
+					c[k] = v
+				}
+				return &lib.Violation{Property: e.prop, Kind: kind, Detail: fmt.Sprintf("nesting depth %d (%s): %s", d, shape, detail),
+					Sig: map[string]string{"fam": "word", "kind": kind, "lab": "", "lastop": "", "api": fmt.Sprint(extra["api"]), "empty": "false"}, Case: c}
+			}
+			hang := func() *lib.Violation { return viol("hang", "", nil) }
+			try := func(api string, f func() bool) (accepted bool, ok bool) {
+				pan := e.wd.Guard(worker, hang, func() { accepted = f() })
+				e.rep.Count("executions", 1)
+				if pan != "" {
+					e.rep.Report(viol("panic", api+" panicked: "+firstLine(pan), map[string]interface{}{"api": api}))
+					return false, false
+				}
+				return accepted, true
+			}
+			expect := func(api string, want bool, dc bool, f func() bool) {
+				got, ok := try(api, f)
+				if !ok || dc {
+					return
+				}
+				if got != want {
+					kind := "accepts-illformed"
+					if want {
+						kind = "rejects-wellformed"
+					}
+					e.rep.Report(viol(kind, api+" disagrees with the nesting limit", map[string]interface{}{"api": api}))
+				}
+			}
+			e.wordAcceptance(&ln, text, expect, try)
+		}
+	}
 }
